@@ -139,6 +139,14 @@ def check_case(run, classes_of_family, fid, ec, s):
         if tokens_ok(s, e, letters) and not any(x in s for x in delims) and o != s:
             run.fail('escaped-text-changed', 'text consisting of ordinary characters and escape sequences is not '
                      'emitted unchanged', version=v, cls=name, ec=ec, input=s, output=o)
+        if v < '2.7' and (e + 'L' + e) in s:
+            rest = s.replace(e + 'L' + e, '')
+            if e not in rest and not any(x in s for x in delims):
+                # before v2.7 <esc>L<esc> is no escape sequence: both escape characters are escaped
+                want = s.replace(e + 'L' + e, e + 'E' + e + 'L' + e + 'E' + e)
+                if o != want:
+                    run.fail('pre27-L-sequence-kept', 'before v2.7 the characters <esc>L<esc> are ordinary text whose escape '
+                             'characters must be escaped', version=v, cls=name, ec=ec, input=s, output=o, expected=want)
         if not tokens_ok(o, e, letters):
             run.fail('esc-outside-token', 'an escape character of the output is outside any escape sequence',
                      version=v, cls=name, ec=ec, input=s, output=o, input_has_escape=(e in s))
